@@ -30,7 +30,7 @@ def cases(ctx):
     for _ in range(ctx.n(150, 1500)):
         ln = rng.choice([3, 4, 5, 8, 16, 31, 32, 33, 34, 36, 64, 100, 255, 256, 257, 1000])
         cs.append(rng.randbytes(ln))
-    for ln in ([4096] if not ctx.thorough() else [4096, 65536, 65537]):
+    for ln in ([4096, 65535, 65536, 65537] if not ctx.thorough() else [4096, 65535, 65536, 65537, 131072, 200001]):
         cs.append(rng.randbytes(ln))
     return cs
 
@@ -61,6 +61,18 @@ def run(ctx):
             if a != s:
                 ctx.fail("crc32c-differs-from-castagnoli", f"crc32c({h[:40]},{order}) = {a}, CRC-32C = {s}",
                          {"fn": "crc32c", "data": h, "order": order})
+    # history: the same data checksummed in both byte orders back to back, and crc16 twice: no call may depend on an
+    # earlier one
+    nh = 0
+    for h, sl, sb, s6 in list(zip(hexes, s32l, s32b, s16))[:ctx.n(300, 3000)]:
+        d = bytes.fromhex(h) if h != "-" else b""
+        nh += 1
+        seq = core.call_impl(lambda _: " ".join([hx(crc32c(d)), hx(crc32c(d, "big")), hx(crc32c(d, "little")), hx(crc32c(d, "big")),
+                                                  hx(crc16(d)), hx(crc16(d))]), None)
+        if seq != " ".join([sl, sb, sl, sb, s6, s6]):
+            ctx.fail("crc-depends-on-earlier-calls", f"little/big/little/big crc32c and crc16 twice on {h[:40]}: {seq}",
+                     {"fn": "history", "data": h})
+    ctx.extra["history_cases"] = nh
     ctx.extra["oracle_cases"] = 3 * len(hexes)
     ctx.extra["length_distribution"] = _dist(cs)
 
@@ -79,6 +91,10 @@ def replay(ctx, obj):
     from pytoniq_core.crypto.crc import crc16, crc32c
     c = obj["case"]
     data = bytes.fromhex(c["data"]) if c["data"] != "-" else b""
+    if c["fn"] == "history":
+        a = core.call_impl(lambda _: " ".join([hx(crc32c(data)), hx(crc32c(data, "big")), hx(crc32c(data, "little")), hx(crc16(data))]), None)
+        s = " ".join(core.run_driver([f"s_crc32c {c['data']} little", f"s_crc32c {c['data']} big", f"s_crc32c {c['data']} little", f"s_crc16 {c['data']}"]))
+        return None if a == s else f"results depend on earlier calls: {a} vs {s}"
     if c["fn"] == "crc16":
         a = core.call_impl(lambda _: hx(crc16(data)), None)
         s = core.run_driver([f"s_crc16 {c['data']}"])[0]
